@@ -1,4 +1,10 @@
 mod c01;
+mod alpha;
+mod c02;
+mod c03;
+mod c05;
+mod c12;
+mod c13;
 mod common;
 mod selftest;
 
@@ -28,6 +34,12 @@ fn main() {
     }
     let code = match prop {
         "C01" => explorer(prop, &tier, replay, c01::specs(&tier), &c01::C01),
+        "C02" => explorer(prop, &tier, replay, c02::specs(&tier), &c02::C02),
+        "C03" => explorer(prop, &tier, replay, c03::specs(&tier, prop), &c03::C03),
+        "C05" => explorer(prop, &tier, replay, c05::specs(&tier), &c05::C05),
+        "C12" => explorer(prop, &tier, replay, c12::specs(&tier), &c12::C12),
+        "C13" => explorer(prop, &tier, replay, c13::specs(&tier), &c13::C13),
+        "C04" => explorer(prop, &tier, replay, c03::specs(&tier, prop), &c03::C04),
         _ => usage(),
     };
     std::process::exit(code);
